@@ -197,9 +197,19 @@ def identityTail : Identity → Bytes
 /-- `_compute_aad(auth)` — cursor tokens (and sticky-session tokens) -/
 def aad (i : Identity) : Bytes := Token.cursorPrefix ++ identityTail i
 
+/-- the method segment of the call AAD in a given layout: `w = 0` — `method.encode() + sep`; `w > 0` — the fixed-width
+    field `method.encode()[:w].ljust(w, pad)` -/
+def methodFieldWith (w : Nat) (pad sep : UInt8) (method : List Char) : Bytes :=
+  if w = 0 then utf8 method ++ [sep]
+  else (utf8 method).take w ++ List.replicate (w - ((utf8 method).take w).length) pad
+
+/-- the method segment as the source lays it out (`Gen.Token.callAadMethodWidth`, `…Pad`, `methodSep`) -/
+def methodField (method : List Char) : Bytes :=
+  methodFieldWith Token.callAadMethodWidth Token.callAadMethodPad Token.methodSep method
+
 /-- `_compute_call_aad(auth, method)`; `bound = Gen.Token.callAadHasMethod` -/
 def callAad (bound : Bool) (method : List Char) (i : Identity) : Bytes :=
-  Token.callPrefix ++ ((if bound then utf8 method ++ [Token.methodSep] else []) ++ identityTail i)
+  Token.callPrefix ++ ((if bound then methodField method else []) ++ identityTail i)
 
 /-- `_CallStateCache._identity(auth)` (a `str`) -/
 def cacheIdent : Identity → List Char
